@@ -1,6 +1,40 @@
-(* Properties/C02.v — JSON -> DSL succeeds exactly for DSL-expressible models.  Statements only. *)
-From Verif Require Import Base.Str Base.Outcome Model.Ast Model.Printer.
+(* Properties/C02.v — JSON -> DSL succeeds exactly for DSL-expressible models.
+   Statements only; proofs in Proofs/PrinterExpressible.v.  [print_model] is the transcription of
+   jsontodsl.go (Model/Printer.v), tied to the code by the correspondence of every run;
+   [expressible] (Spec/Expressible.v) is written without the printer's validator counter. *)
+From Verif Require Import Base.Str Base.Outcome Model.Ast Model.Printer Spec.Expressible Proofs.PrinterExpressible.
 
-(* a relation that is a bare direct assignment is always printable *)
-Theorem C02_bare_this : forall rs, print_top (UThis ThisEmpty) rs = Some (print_this rs, 1%nat).
-Proof. reflexivity. Qed.
+(* 1. on every rewrite a DSL document can carry, the printer's walk succeeds and its counter equals the
+      number of direct assignments in the tree — for all trees, of any depth and operator nesting *)
+Theorem C02_counter_is_count : forall rs u, carriable u = true -> exists t, print_top u rs = Some (t, count_direct u).
+Proof. exact print_top_carriable. Qed.
+
+(* 2. the validator's position test is the specification's "can be placed first" *)
+Theorem C02_first_position : forall u, is_first_position u = first_pos u.
+Proof. exact is_first_position_spec. Qed.
+
+(* 3. one relation: success iff expressible, otherwise the unsupported-nesting error for that relation *)
+Theorem C02_relation_iff : forall ty rel u meta src, carriable u = true ->
+  (expressible u = true -> exists t, print_relation ty rel u meta src = Ok t) /\
+  (expressible u = false -> print_relation ty rel u meta src = Err (EUnsupportedNesting ty rel)).
+Proof. exact print_relation_iff. Qed.
+
+(* 4. one type and 5. the whole model: conversion succeeds iff every relation is expressible; otherwise
+      the error is unsupported nesting (never different DSL) *)
+Theorem C02_type_iff : forall t modular src, type_carriable t ->
+  (type_expressible t -> exists s, print_type t modular src = Ok s) /\
+  (~ type_expressible t -> exists r, print_type t modular src = Err (EUnsupportedNesting (td_name t) r)).
+Proof. exact print_type_iff. Qed.
+
+Theorem C02_model_iff : forall src m, model_carriable m ->
+  (Forall type_expressible (m_types m) -> exists s, fst (print_model src m) = Ok s) /\
+  (~ Forall type_expressible (m_types m) -> exists ty r, fst (print_model src m) = Err (EUnsupportedNesting ty r)).
+Proof. exact print_model_iff. Qed.
+
+(* non-vacuity: a carriable, expressible, nested rewrite with the direct assignment in the middle of a union
+   inside the base of an exclusion, and a carriable inexpressible one (two direct assignments) *)
+Example C02_domain_is_inhabited :
+  let u1 := UDiff (UUnion [UComputed (lit "a"); UThis ThisEmpty; UTTU (lit "p") (lit "b")]) (UComputed (lit "c")) in
+  let u2 := UUnion [UThis ThisEmpty; UInter [UThis ThisEmpty; UComputed (lit "a")]] in
+  carriable u1 = true /\ expressible u1 = true /\ carriable u2 = true /\ expressible u2 = false.
+Proof. repeat split; reflexivity. Qed.
